@@ -463,6 +463,40 @@ def r01_8(chk, ft):
     chk.floor("R01.8", 15)
 
 
+def r01_8b(chk, ft):
+    """The anomaly returned by the true→eccentric conversion carries the sign of sin ν through its data flow (both arms),
+    and no arm picks the sign from a range test on ν (the angle is not normalised by the neighbouring conversions)."""
+    from ..flow import reaching
+    fwd = ft.conversions[("keplerian", "keplerian_eccentric")]
+    flow = reaching(fwd.node)
+    nu = nf("ν")
+    rets = [n for n in ast.walk(fwd.node) if isinstance(n, ast.Return)]
+    if len(rets) != 1 or not isinstance(rets[0].value, ast.Call) or not isinstance(rets[0].value.args[0], ast.List):
+        raise AnalysisError(f"{fwd.ref}: return shape")
+    last = rets[0].value.args[0].elts[-1]
+    # transitive closure of reaching definitions of the returned anomaly
+    seen, todo, texts = set(), [last], []
+    while todo:
+        n = todo.pop()
+        for x in ast.walk(n):
+            if isinstance(x, ast.Name) and isinstance(x.ctx, ast.Load) and id(x) not in seen:
+                seen.add(id(x))
+                for d in flow.defs_of(x):
+                    if d[0] in ("assign", "unpack"):
+                        texts.append(unparse(d[1]))
+                        todo.append(d[1])
+    _, ell, hyp, _ = find_arm(fwd, "e", "<", "1")
+    for label, arm in (("elliptic", ell), ("hyperbolic", hyp)):
+        arm_defs = [unparse(s.value) for s in arm if isinstance(s, ast.Assign)]
+        reach = [t for t in arm_defs if t in texts]
+        ok = any(f"sin({nu})" in t for t in reach)
+        chk.inst("R01.8", f"{fwd.ref}::{label}::sign-carried-by-sin", ok, "the anomaly is computed from an expression odd in ν (sin ν): correct on both sides of periapsis for any representative of ν" if ok else
+                 "the anomaly no longer depends on sin ν by data flow: its sign must then come from a test on ν, which is not normalised (ν = u − ω from the circular form can be negative)", loc(fwd, fwd.node))
+        tests = [n for s in arm for n in ast.walk(s) if isinstance(n, (ast.If, ast.IfExp)) and nu in unparse(n.test)]
+        chk.inst("R01.8", f"{fwd.ref}::{label}::no-range-test-on-ν", not tests, "no branch on the value of ν" if not tests else
+                 f"`{unparse(tests[0].test)}` decides the sign from the range of an un-normalised angle", loc(fwd, tests[0]) if tests else loc(fwd, fwd.node))
+
+
 def r01_9(chk, ft):
     f1 = ft.conversions[("tle", "keplerian_mean")]
     f2 = ft.conversions[("keplerian_mean", "tle")]
@@ -613,6 +647,7 @@ def run(chk):
     chk.guard(r01_5, chk, ft)
     chk.guard(r01_6, chk, ft)
     chk.guard(r01_8, chk, ft)
+    chk.guard(r01_8b, chk, ft)
     chk.guard(r01_9, chk, ft)
     chk.guard(r01_12, chk)
     chk.assume("positive-atom assumption: sqrt(x²)=x and |x|=x for the atoms r, a, e, cos φ (elements in their documented ranges)")
